@@ -444,6 +444,30 @@ let rec judge_case (u : uni) (case : sx) (obs : sx list) : verdict =
              | DOk _, _ -> fail v "corr-hop" "re-encoding failed in the implementation"
              | _, _ -> ())
         | _ -> fail v "harness" "unparsable observation")
+   | L (A "desc" :: A tname :: probes) ->
+       (* the once-per-type computation of desc.go against the model's reading of the schema *)
+       let sid = sid_of u tname in
+       let sd = List.nth u.env sid in
+       let b2s b = if b then "1" else "0" in
+       let model =
+         String.concat "" (List.map (fun (f : field) ->
+           let fx = field_fixed_size f in
+           Printf.sprintf "(f %s %s %s %s %s)" (string_of_n f.fid) (b2s (can_skip_nil f)) (b2s (can_skip_default f)) (b2s f.fnocopy)
+             (if fx = N0 then "-1" else string_of_n fx)) sd.sfields)
+         ^ "(req" ^ String.concat "" (List.map (fun i -> " " ^ string_of_n i) (required_ids sd)) ^ ")"
+         ^ "(get" ^ String.concat "" (List.map (function
+             | A p -> (match get_field sd (n_of_string p) with Some (_, f) -> " " ^ string_of_n f.fid | None -> " -1")
+             | _ -> " ?") probes) ^ ")"
+         ^ "(holder " ^ b2s sd.sholder ^ ")" in
+       let render l =
+         let rec r = function A a -> a | L l -> "(" ^ String.concat " " (List.map r l) ^ ")" in
+         String.concat "" (List.map r l) in
+       (match obs with
+        | [L (A "ok" :: l)] ->
+            let impl = render l in
+            if impl <> model then fail v "corr-desc" (Printf.sprintf "descriptor: model %s impl %s" model impl)
+        | [L (A "panic" :: A m :: _)] -> fail v "panic" ("descriptor construction panicked: " ^ string_of_hex m)
+        | _ -> fail v "harness" "unparsable observation")
    | L [A "resolve"; A tname] ->
        let sid = sid_of u tname in
        let gs = List.nth u.gu sid in
